@@ -85,6 +85,17 @@ def const_clash(diags, const_name):
     return any(c in text for c in CONST_CAUSE) and const_name in text
 
 
+VALUE_ITEM_CAUSE = ("cannot shadow constants", "cannot shadow statics", "cannot shadow tuple structs", "cannot shadow unit structs",
+                    "interpreted as a constant pattern", "the constant is defined here", "constant defined here",
+                    "refutable pattern in function argument", "refutable pattern in local binding")
+
+
+def value_item_clash(diags, name):
+    """rustc itself says that a generated binding of that name is read as / collides with the user's constant"""
+    text = " ".join((d.get("rendered") or "") + d.get("message", "") for d in diags)
+    return any(c in text for c in VALUE_ITEM_CAUSE) and name in text
+
+
 METHOD_CAUSE = ("shadowed by the local binding", "can't capture dynamic environment in a fn item",
                 "this function of the same name is available here")
 
@@ -206,6 +217,7 @@ EXTRA_BINDINGS = ["arg", "size", "data", "self_data", "other_data", "educe__f", 
 
 
 # (trait, signature, body, field attribute, type-level traits)
+METHOD_NAMES_ALL = False   # thorough tier: every harvested name; quick: the known bindings + a fixed quarter of the harvest
 METHOD_TEMPLATES = [
     ("Debug", "(v: &u8, fm: &mut ::core::fmt::Formatter<'_>) -> ::core::fmt::Result", "::core::fmt::Debug::fmt(v, fm)",
      "Debug(method(%s))", "Debug"),
@@ -255,13 +267,35 @@ def directed(pool):
                     "#[derive(::educe::Educe)]\n#[educe(Debug, Clone, PartialEq, Deref, DerefMut, Into(u16))]\npub enum Ty {\n    %s(u16),\n"
                     "    Zz { #[educe(Deref, DerefMut, Into(u16))] a: u16, b: u8 },\n}\n" % x))
         # a user function named like a generated binding, used as a custom method through its bare name
-        for tr, sig, body, attr, head in METHOD_TEMPLATES:
+        for tr, sig, body, attr, head in (METHOD_TEMPLATES if (METHOD_NAMES_ALL or x in EXTRA_BINDINGS or digest(x)[0] in "0123") else []):
             fn = "pub fn %s%s { %s }\n" % (x, sig, body)
             a = attr % x
             out.append(("method-name/" + tr, x,
                         fn + "#[derive(::educe::Educe)]\n#[educe(%s)]\npub struct Ty {\n    #[educe(%s)]\n    pub a: u8,\n    pub b: u8,\n}\n"
                         "#[derive(::educe::Educe)]\n#[educe(%s)]\npub enum Ty2 {\n    V { #[educe(%s)] a: u8, b: u8 },\n    W(#[educe(%s)] u8, u8),\n}\n"
                         % (head, a, head, a, a)))
+        # an ordinary user type of that name next to the derive, mentioned only inside field types
+        out.append(("surrounding-type", x,
+                    "#[derive(Debug, Clone, PartialEq, Eq, PartialOrd, Ord, Hash, Default)]\npub struct %s { pub v: u16 }\n"
+                    "#[derive(::educe::Educe)]\n#[educe(%s, Into(%s))]\npub struct Ty {\n    pub key: %s,\n    pub opt: ::core::option::Option<%s>,\n"
+                    "    pub arr: [%s; 2],\n    #[educe(Debug(method(%szz_dbg)))]\n    pub pair: (%s, %s),\n}\n"
+                    "#[derive(::educe::Educe)]\n#[educe(%s)]\npub enum Ty2 {\n    #[educe(Default)]\n    V(%s, [%s; 2]),\n    W { k: ::core::option::Option<%s> },\n}\n"
+                    % (x, ALL9, x, x, x, x, RT, x, x, ALL9, x, x, x)))
+        # a constant of that name next to the derive (value namespace: a generated binding pattern of the same name
+        # becomes a constant pattern / an illegal shadowing)
+        if x not in CONST_EXCLUDE:
+            out.append(("surrounding-const", x,
+                        "pub const %s: u16 = 7;\n#[derive(::educe::Educe)]\n#[educe(%s, Into(u16))]\npub struct Ty {\n    pub key: u16,\n"
+                        "    #[educe(Debug(method(%szz_dbg)))]\n    pub b: u8,\n}\n"
+                        "#[derive(::educe::Educe)]\n#[educe(%s)]\npub enum Ty2 {\n    #[educe(Default)]\n    V(u16, u8),\n    W { k: u16, #[educe(Debug(method(%szz_dbg)))] j: u8 },\n    U,\n}\n"
+                        % (x, ALL9, RT, ALL9.replace("Debug", "Debug(name = true)"), RT)))
+        # the name together with its lengthened forms, longest first: a fresh name must avoid all of them at once
+        chain = [x + x[-1] * 2, x + x[-1], x]
+        out.append(("type-param-chain", x,
+                    "#[derive(::educe::Educe)]\n#[educe(%s)]\npub struct Ty<%s>(%s);\n"
+                    "#[derive(::educe::Educe)]\n#[educe(%s)]\npub enum Ty2<%s, const %s: usize> {\n    #[educe(Default)]\n    V(%s, [u8; %s]),\n    W { k: %s },\n}\n"
+                    % (ALL9, ", ".join("%s: %sPayload" % (c, RT) for c in chain), ", ".join("pub " + c for c in chain),
+                       ALL9, "%s: %sPayload" % (chain[2], RT), chain[1], chain[2], chain[1], chain[2])))
         out.append(("lifetime", x,
                     "#[derive(::educe::Educe)]\n#[educe(Debug, Clone, PartialEq, Eq, PartialOrd, Ord, Hash, Deref)]\npub struct Ty<'%s> {\n    pub a: &'%s u8,\n}\n" % (x, x)))
     return out
@@ -269,22 +303,36 @@ def directed(pool):
 
 def run_directed(chk, pool, ctxs):
     cases = directed(pool)
-    lib = H.Program(header=LIB_HEADER, main=False, file_suffix="src/lib.rs")
-    base = H.Program(header=LIB_HEADER, main=False, file_suffix="src/lib.rs")
+    # the directed definitions are only compiled, never run: type checking (cargo check) decides.  They are spread over
+    # several no_std crates (bin targets without a main) so that the front end runs on all cores.
+    shards = max(1, min(NCPU, len(cases) // 150))
+    hdr = LIB_HEADER.replace("#![no_std]\n", "#![no_std]\n#![no_main]\n")
+    libs = {"s%d" % j: H.Program(header=hdr, main=False) for j in range(shards)}
+    bases = {"s%d" % j: H.Program(header=hdr, main=False) for j in range(shards)}
     meta = {}
     for i, (pos, x, text) in enumerate(cases):
         cid = "d%d" % i
         ctx = ctxs[i % len(ctxs)]
         meta[cid] = (pos, x, text, ctx)
         taken = set(IDENT_RE.findall(text))
-        stripped = "\n".join(l for l in text.split("\n") if not l.strip().startswith("#[")) 
+        stripped = "\n".join(l for l in text.split("\n") if not l.strip().startswith("#["))
         stripped = re.sub(r"#\[educe\([^\]]*\)\]\s*", "", stripped)
-        lib.add_case(cid, "pub mod %s {\n%s%s}\n" % (cid, context(ctx, taken), text))
-        base.add_case(cid, "pub mod %s {\n%s%s}\n" % (cid, context(ctx, taken), stripped))
-    bdrop = compile_with_lib("c19dbase", base, {}, rounds=6)
+        b = "s%d" % (i % shards)
+        libs[b].add_case(cid, "pub mod %s {\n%s%s}\n" % (cid, context(ctx, taken), text))
+        bases[b].add_case(cid, "pub mod %s {\n%s%s}\n" % (cid, context(ctx, taken), stripped))
+    bd, _, _ = H.compile_programs("c19dbase", bases, rounds=6, subcmd="check")
+    bdrop = {}
+    for b in bd:
+        bdrop.update(bd[b])
     for cid in bdrop:
         chk.inconc("names-not-legal-rust")
-    dropped = compile_with_lib("c19d", lib, {}, rounds=10, predrop=set(bdrop))
+        for b in libs:
+            if cid in libs[b].texts:
+                libs[b].parts[2 + [r[0] for r in libs[b].ranges].index(cid)] = "\n" * libs[b].texts[cid].count("\n")
+    dd, _, _ = H.compile_programs("c19d", libs, rounds=10, subcmd="check")
+    dropped = {}
+    for b in dd:
+        dropped.update(dd[b])
     for cid, (pos, x, text, ctx) in meta.items():
         if cid in bdrop:
             continue
@@ -294,6 +342,10 @@ def run_directed(chk, pool, ctxs):
             sig = "directed|%s|%s|%s" % (pos, x, e.get("code"))
             if pos == "const-param" and const_clash(dropped[cid], x):
                 sig = "const-param-clash|%s" % family(x)
+            # the template differs from the ones that compile only in the constant's name: whatever rustc reports (a
+            # constant pattern is not always named in the message), the cause is the generated binding of that name
+            if pos == "surrounding-const" and (value_item_clash(dropped[cid], x) or any(d.get("via_educe") for d in dropped[cid])):
+                sig = "value-item-clash|%s" % family(x)
             if pos.startswith("method-name/") and method_clash(dropped[cid], x):
                 sig = "method-name-clash|%s|%s" % (pos.split("/")[1], family(x))
             chk.violation(sig, "an identifier the generated code uses internally breaks the derive when it names a %s: `%s` "
@@ -380,6 +432,8 @@ def main(tier, seed, scale=1.0):
     chk.assumptions = ["exclusions: Rust keywords, `_`, and re-binding the crate name `core`",
                        "the same shape grammar with neutral names is established to compile by C01"]
     ctxs = ["shadow", "fns", "all", "macros", "none"]
+    global METHOD_NAMES_ALL
+    METHOD_NAMES_ALL = True
     failing = run_directed(chk, pool, ctxs)
     names = Names(pool, failing)
     G.DEFAULT_NAMES = names
@@ -486,14 +540,14 @@ class _Proxy:
         pass
 
 
-def compile_with_lib(name, lib, bins, rounds=6, predrop=()):
+def compile_with_lib(name, lib, bins, rounds=6, predrop=(), subcmd="build"):
     """compile the package (library + bins); cases that draw errors anywhere are dropped everywhere."""
     dropped = {c: [{"message": "baseline", "level": "error", "code": None}] for c in predrop}
     progs = dict(bins)
     progs[name] = lib
     for rnd in range(rounds + 1):
         B.setup_d1(name, {b: p.source(dropped) for b, p in bins.items()}, rt=True, lib=lib.source(dropped))
-        rc, diags, err = B.cargo_build_d1(name, extra_args=["--lib"] if not bins else ["--lib"])
+        rc, diags, err = B.cargo_build_d1(name, extra_args=["--lib"] if not bins else ["--lib"], subcmd=subcmd)
         att = H.attribute_diags(progs, diags)
         new = False
         unatt = []
